@@ -197,8 +197,35 @@ def metaclass_setattr_contract():
         out.append(("otherwise the attribute is set on the class exactly once",
                     z3.Implies(z3.Not(plain), z3.BoolVal(len(w) == 1 and len(s_) == 0))))
         return out
-    return FunctionContract("%s:ParameterizedMetaclass.__setattr__" % MOD, PROP, setup, post, configure=configure,
-                            name="ParameterizedMetaclass.__setattr__")
+    c = FunctionContract("%s:ParameterizedMetaclass.__setattr__" % MOD, PROP, setup, post, configure=configure,
+                         name="ParameterizedMetaclass.__setattr__")
+    c.static_witness = "class-level set on a subclass whose .param cache is filled"
+    c.static_replay = SETATTR_REPLAY
+    return c
+
+
+SETATTR_REPLAY = '''import sys, os, inspect
+sys.path.insert(0, os.environ.get('PYVC_REPO', '/repo'))
+import param
+class A(param.Parameterized):
+    x = param.Number(1)
+class B(A):
+    pass
+class C(B):
+    pass
+C.param['x']; B.param['x']          # fill the caches
+B.x = 7                              # copy-on-write of the inherited Parameter into B
+bad = []
+for cls in (B, C):
+    if cls.param['x'] is not inspect.getattr_static(cls, 'x'):
+        bad.append('%s.param[x] is not the descriptor that governs %s.x' % (cls.__name__, cls.__name__))
+    if cls.param['x'].default != cls.x:
+        bad.append('%s.param[x].default=%r but %s.x=%r' % (cls.__name__, cls.param['x'].default, cls.__name__, cls.x))
+print('\\n'.join(bad) or 'namespace agrees with attribute access')
+if bad:
+    print('REPRODUCED: C13 stale .param cache after a class-level assignment'); sys.exit(1)
+print('NOT-REPRODUCED'); sys.exit(0)
+'''
 
 
 def contracts():
